@@ -11,6 +11,7 @@ REDUCTIONS = ["dpor", "sdpor", "odpor"]
 class C41(core.Prop):
     id = "C41"
     drivers = ["s4u_interp"]
+    ready = True
     sizes = {"quick": 40, "thorough": 1500}
     max_workers = 6
     technique = ("property-based testing (Hypothesis): every counter-example path reported by simgrid-mc on generated programs is "
